@@ -1,11 +1,7 @@
 """C01 harness: fedjax.algorithms.fed_avg.federated_averaging on tiny in-memory
 populations, all for_each_client backends, against (a) an independent float64
 recomputation of the definition (oracle) and (b) the Gallina model (encode)."""
-import atexit
 import json
-import os
-import subprocess
-import sys
 
 import numpy as np
 
@@ -78,7 +74,7 @@ def _case(rng, copt, sopt, hp, sizes, nrounds, backend, noise):
 
 
 def generate(tier, rng):
-  n_cfg = {'quick': 60, 'thorough': 260, 'search': 400}[tier]
+  n_cfg = {'quick': 52, 'thorough': 260, 'search': 400}[tier]
   # fixed corner cases first: all-empty rounds, zero clients, drop_remainder with n < bs, every backend
   for b in BACKENDS:
     yield _case(rng, SGD(0.125), SGD(1.0), _hp(HPS[0], 1), [0, 0], 2, b, True)
@@ -108,6 +104,30 @@ def generate(tier, rng):
       base = _case(rng, copt, sopt, hp, sizes, rng.randint(1, 3), 'jit', noise)
       for b in (bks if j == 0 else [rng.choice(bks)]):
         yield dict(base, backend=b)
+  # WAVE4 item 1: a server / client optimizer made of several chained optax transforms (clip, then sgd)
+  CLIP = {'kind': 'clipsgd', 'lr': 0.5, 'clip': 0.0625}
+  yield _case(rng, SGD(0.125), CLIP, _hp(HPS[0], 3), [5, 3, 9], 2, 'jit', True)
+  yield _case(rng, dict(CLIP, lr=0.125, clip=0.25), SGD(1.0), _hp(HPS[0], 3), [5, 3, 9], 2, 'pmap', True)
+  # item 2: ids that look like sentinels (-1, None: the pmap backend pads with client id None); item 7: two-leaf params whose
+  # keys are inserted in non-sorted order; cohorts not in id order (always)
+  for ids, b in (('negint', 'pmap'), ('none0', 'pmap'), ('none0', 'jit'), ('negint', 'debug')):
+    yield dict(_case(rng, SGD(0.125), SGD(1.0, 0.5), _hp(HPS[0], 5), [3, 9, 5, 0], 2, b, True),
+               forms={'clients': 'list', 'ids': ids, 'init': 'jax', 'key': 'jax', 'leaves': 2})
+  # item 3: magnitude sweep, jointly for the data scale (2**e) and the client learning rate (2**-2e keeps the dynamics),
+  # and tiny / huge learning rates on their own
+  for e in (-20, -10, 10, 20):
+    yield dict(_case(rng, SGD(0.125 * 2.0 ** (-2 * e)), SGD(1.0), _hp(HPS[0], 4), [4, 0, 6, 3], 2, 'jit', False), scale=e)
+  yield _case(rng, SGD(2.0 ** -100), SGD(2.0 ** 60), _hp(HPS[0], 4), [4, 6], 2, 'jit', False)
+  yield _case(rng, SGD(2.0 ** -20), SGD(2.0 ** -30, 0.5), _hp(HPS[0], 4), [4, 6], 2, 'jit', True)
+  # item 4: a non-finite value on a REAL example
+  yield dict(_case(rng, SGD(0.125), SGD(1.0), _hp(HPS[0], 4), [4, 6, 0], 2, 'jit', False), poison=['1', 2],
+             rounds=[[['0', 1], ['2', 2]], [['1', 3], ['0', 4]]], perm=[1, 0])
+  yield dict(_case(rng, SGD(0.125), SGD(1.0), _hp(HPS[0], 4), [4, 6, 0], 1, 'pmap', False), poison=['0', 0],
+             rounds=[[['2', 1], ['0', 2], ['1', 3]]], perm=[2, 0, 1])
+  # item 6: global jax configuration flags, one subprocess per setting
+  for flag in (['rbg'] if tier == 'quick' else ['rbg', 'tfp0', 'tfp1', 'x64', 'rankraise']):
+    for k in range(2 if tier == 'quick' else 3):
+      yield dict(_case(rng, SGD(0.125, 0.5), SGD(1.0), _hp(HPS[k], 4), [4, 2, 6, 0], 2, ['jit', 'pmap', 'debug'][k], True), flags=flag)
   # federated_averaging is built many times per process from the SAME grad_fn object (fedsim.shared_grad) with different
   # optimizers / hparams; re-run the first-built algorithm objects after all the others exist (hidden shared state)
   for b in BACKENDS[:2]:
@@ -163,18 +183,46 @@ def _apply(alg, rec, state, cds, rnd, case, watch=None):
                  'calls': list(rec.calls)}
 
 
+def _pop(case):
+  """The population as the implementation sees it: scaled by 2**scale, optionally with one +inf feature."""
+  pop = {c: fs.scaled(d, case.get('scale', 0)) for c, d in case['pop'].items()}
+  if case.get('poison'):
+    c, i = case['poison']
+    pop[c] = {'x': [list(r) for r in pop[c]['x']], 'y': list(pop[c]['y'])}
+    pop[c]['x'][i][0] = float('inf')
+  return pop
+
+
+def _oracle_poison(case, obs):
+  """A real (unmasked) example with a +inf feature in a client of positive weight: the definition gives non-finite
+  parameters from that round on (inf/NaN propagate through the mean); the implementation must not hide it."""
+  if obs.get('err'):
+    return [('apply-raised:' + obs['err'], 'federated_averaging raised %s on a non-finite example' % obs['err'])]
+  c = case['poison'][0]
+  first = next((r for r, rnd in enumerate(case['rounds']) if any(cc == c for cc, _ in rnd) and obs['streams'][c]), None)
+  out = []
+  for r, o in enumerate(obs['rounds']):
+    bad = not fs.finite(o['params'])
+    if first is not None and r >= first and not bad:
+      out.append(('non-finite-hidden', f'round {r}: client {c} trained on a +inf feature but the server params are finite {o["params"]}'))
+    if (first is None or r < first) and bad:
+      out.append(('non-finite', f'round {r}: non-finite params before the poisoned client took a step'))
+  return out
+
+
 def run_local(case):
   alg, rec = _alg(case)
   forms = case.get('forms', fs.FORMS0)
-  cds = {c: fs.client_dataset(d, case.get('xdtype', 'float32')) for c, d in case['pop'].items()}
+  cds = {c: fs.client_dataset(d, case.get('xdtype', 'float32')) for c, d in _pop(case).items()}
   obs = {'err': None, 'rounds': [], 'perm': None, 'nozero': None, 'reinit': None, 'fresh': None, 'caller': []}
   obs['streams'] = {c: fs.record_stream(cds[c], case['hp']) for c in sorted(cds)}
   obs['nus'] = [[fs.nu_stream(s, len(obs['streams'][c])) if case['noise'] else [0.0] * len(obs['streams'][c])
                  for c, s in rnd] for rnd in case['rounds']]
   watch = fs.CallerData()
   try:
-    w0 = fs.make_params(case['init'], forms['init'])
-    watch.watch('initial params', w0['w'])
+    leaves = forms.get('leaves', 1)
+    w0 = fs.make_params(case['init'], forms['init'], leaves)
+    watch.watch('initial params', fs.first_leaf(w0))
     for c, d in cds.items():
       for f, a in d.raw_examples.items():
         watch.watch(f'dataset {c}.{f}', a)
@@ -182,7 +230,7 @@ def run_local(case):
     state = init
     kept = []
     for rnd in case['rounds']:
-      watch.watch('input server_state.params', state.params['w'])
+      watch.watch('input server_state.params', fs.first_leaf(state.params))
       state, o = _apply(alg, rec, state, cds, rnd, case, watch)
       kept.append((state, o['params']))
       obs['rounds'].append(o)
@@ -192,11 +240,11 @@ def run_local(case):
     _, o = _apply(alg, rec, init, cds, [cs for cs in r0 if len(case['pop'][cs[0]]['y']) > 0], case)
     obs['nozero'] = {'params': o['params']}
     # init() again after the applies, on the same object
-    _, o = _apply(alg, rec, alg.init(fs.make_params(case['init'], forms['init'])), cds, r0, case)
+    _, o = _apply(alg, rec, alg.init(fs.make_params(case['init'], forms['init'], leaves)), cds, r0, case)
     obs['reinit'] = {'params': o['params'], 'trace': o['trace']}
     if case.get('fresh'):            # a freshly built algorithm object must agree with the long-lived one
       alg2, rec2 = _alg(case, fresh=True)
-      _, o = _apply(alg2, rec2, alg2.init(fs.make_params(case['init'], forms['init'])), cds, r0, case)
+      _, o = _apply(alg2, rec2, alg2.init(fs.make_params(case['init'], forms['init'], leaves)), cds, r0, case)
       obs['fresh'] = {'params': o['params'], 'trace': o['trace']}
     # results kept by the caller are still what they were; inputs are untouched
     for r, (st, params) in enumerate(kept):
@@ -211,58 +259,18 @@ def run_local(case):
   return obs
 
 
-_WORKER = {}
-
-
-def _worker():
-  if 'p' not in _WORKER or _WORKER['p'].poll() is not None:
-    env = dict(os.environ)
-    env['XLA_FLAGS'] = (env.get('XLA_FLAGS', '') + ' --xla_force_host_platform_device_count=3').strip()
-    _WORKER['p'] = subprocess.Popen([sys.executable, '-c', 'from harness import c01; c01.worker_main()'],
-                                    stdin=subprocess.PIPE, stdout=subprocess.PIPE, stderr=subprocess.DEVNULL,
-                                    env=env, text=True, bufsize=1)
-    atexit.register(_kill_worker)
-  return _WORKER['p']
-
-
-def _kill_worker():
-  p = _WORKER.pop('p', None)
-  if p is not None and p.poll() is None:
-    p.kill()
-
-
-def worker_main():
-  """Subprocess with 3 host devices: one JSON case per line in, one JSON observation per line out."""
-  import jax
-  out = sys.stdout
-  sys.stdout = sys.stderr
-  out.write(json.dumps({'devices': len(jax.devices())}) + '\n')
-  out.flush()
-  for line in sys.stdin:
-    case = json.loads(line)
-    try:
-      obs = run_local(case)
-    except Exception as ex:
-      obs = {'err': 'worker:' + fs.err_name(ex), 'rounds': []}
-    out.write(json.dumps(obs) + '\n')
-    out.flush()
+def worker_tag(case):
+  """None: in-process; else the fedsim.WORKER_ENVS entry the case needs (3 devices or a global jax flag)."""
+  return case.get('flags') or ('pmap3' if case['backend'] == 'pmap3' else None)
 
 
 def run(case):
-  if case['backend'] != 'pmap3':
+  tag = worker_tag(case)
+  if tag is None:
     return run_local(case)
-  try:
-    p = _worker()
-    if 'devices' not in _WORKER:
-      _WORKER['devices'] = json.loads(p.stdout.readline())['devices']
-    p.stdin.write(json.dumps(case) + '\n')
-    p.stdin.flush()
-    obs = json.loads(p.stdout.readline())
-  except fw.Hang:
-    _kill_worker()
-    _WORKER.pop('devices', None)
-    raise
-  obs['devices'] = _WORKER['devices']
+  obs = fs.run_in_worker('c01', tag, case)
+  if 'worker_error' in obs:
+    obs = {'err': 'worker:' + obs['worker_error'], 'rounds': [], 'worker': obs.get('worker')}
   return obs
 
 
@@ -270,7 +278,8 @@ def run(case):
 # oracle: the definition, recomputed independently in float64
 
 def _members(case, obs, r):
-  return [(len(case['pop'][c]['y']), case['pop'][c], obs['streams'][c], obs['nus'][r][j])
+  pop = _pop(case)
+  return [(len(pop[c]['y']), pop[c], obs['streams'][c], obs['nus'][r][j])
           for j, (c, _) in enumerate(case['rounds'][r])]
 
 
@@ -278,8 +287,12 @@ def oracle(case, obs):
   out = []
   if obs.get('err'):
     return [('apply-raised:' + obs['err'], 'federated_averaging raised %s' % obs['err'])]
-  if case['backend'] == 'pmap3' and obs.get('devices') != 3:
+  if case['backend'] == 'pmap3' and (obs.get('worker') or {}).get('devices') != 3:
     out.append(('harness-devices', 'the pmap worker does not have 3 devices'))
+  if case.get('flags') == 'x64' and not (obs.get('worker') or {}).get('x64'):
+    out.append(('harness-flags', 'the x64 worker does not run with jax_enable_x64'))
+  if case.get('poison'):
+    return out + _oracle_poison(case, obs)
   tol = TOL_ADAM if 'adam' in (case['copt']['kind'], case['sopt']['kind']) else TOL
   hp = case['hp']
   for c, st in obs['streams'].items():
@@ -335,8 +348,8 @@ def oracle(case, obs):
     out.append(('caller-data', what))
   if len(obs['rounds']) == len(case['rounds']) and obs['rounds']:
     p0 = obs['rounds'][0]['params']
-    want_type = {'bytes': 'bytes', 'str': 'str', 'int': 'int'}[case.get('forms', fs.FORMS0)['ids']]
-    if any(o['diag_key_types'] not in ([], [want_type]) for o in obs['rounds']):
+    want_type = {'bytes': ['bytes'], 'str': ['str'], 'int': ['int'], 'negint': ['int'], 'none0': ['NoneType', 'int']}[case.get('forms', fs.FORMS0)['ids']]
+    if any(not set(o['diag_key_types']) <= set(want_type) for o in obs['rounds']):
       out.append(('diagnostics-keys', 'diagnostics are not keyed by the client ids as given'))
     for k in ('reinit', 'fresh'):
       if k == 'fresh' and not case.get('fresh'):
@@ -359,22 +372,27 @@ def _sgd(c):
   return f'(mkSgd {fw.qlit(c["lr"])} {fw.qlit(c.get("mom") or 0)} {fw.cbool(c.get("nest"))})'
 
 
+def _optz(v):
+  return 'None' if v is None else f'(Some ({int(v)})%Z)'
+
+
 def _zid(c):
   return f'({int(c)})%Z'
 
 
 def encode(case, obs):
-  if obs.get('err') or case['copt']['kind'] != 'sgd' or len(obs['rounds']) != len(case['rounds']):
+  if obs.get('err') or case['copt']['kind'] != 'sgd' or len(obs['rounds']) != len(case['rounds']) or case.get('poison'):
     return None
   opaque = case['sopt']['kind'] != 'sgd'
   pop = fw.clist([f'({_zid(c)}, {fw.clist(["(" + fw.qlist(x) + ", " + fw.qlit(y) + ")" for x, y in zip(d["x"], d["y"])])})'
-                  for c, d in sorted(case['pop'].items())])
+                  for c, d in sorted(_pop(case).items())])
   streams = fw.clist([f'({_zid(c)}, {fw.clist([fw.natlist(b) for b in st])})' for c, st in sorted(obs['streams'].items())])
   rounds = fw.clist([fw.clist([f'({_zid(c)}, {fw.qlist(nus)})' for (c, _), nus in zip(rnd, obs['nus'][r])])
                      for r, rnd in enumerate(case['rounds'])])
   sopt = _sgd(case['sopt']) if not opaque else '(mkSgd 0 0 false)'
   tol = TOL_ADAM if opaque else TOL
-  cterm = (f'(mkC01 {_sgd(case["copt"])} {sopt} {fw.cbool(opaque)} {fw.qlist(case["init"])} {pop} {streams} {rounds} {fw.qlit(tol)})')
+  cterm = (f'(mkC01 {_sgd(case["copt"])} {sopt} {fw.cbool(opaque)} {fw.qlist(case["init"])} {pop} {streams} {rounds} {fw.qlit(tol)} '
+           f'(({case["hp"]["bs"]})%Z, {_optz(case["hp"]["epochs"])}, {_optz(case["hp"]["steps"])}, {fw.cbool(case["hp"]["drop"])}))')
   ors = []
   for o in obs['rounds']:
     if len(o['calls']) != 1:
@@ -391,8 +409,11 @@ def nontrivial(case, obs):
 def describe(case, obs):
   tot = [sum(len(case['pop'][c]['y']) for c, _ in rnd) for rnd in case['rounds']]
   f = case.get('forms', fs.FORMS0)
-  return {'backend': case['backend'], 'rounds': len(case['rounds']), 'forms': f"{f['clients']}/{f['ids']}/{f['init']}/{f['key']}",
-          'xdtype': case.get('xdtype', 'float32'), 'hparams_seed0': case['hp']['seed'] == 0, 'clients_round0': len(case['rounds'][0]),
+  return {'backend': case['backend'], 'rounds': len(case['rounds']), 'forms': f"{f['clients']}/{f['ids']}/{f['init']}/{f['key']}/{f.get('leaves', 1)}leaf",
+          'xdtype': case.get('xdtype', 'float32'), 'hparams_seed0': case['hp']['seed'] == 0,
+          'data_scale_log2': case.get('scale', 0), 'jax_flags': case.get('flags') or 'default', 'poisoned': bool(case.get('poison')),
+          # hypothesis of the theorems: client ids of a cohort are distinct (a case violating it is judged by the oracle only)
+          'hyp_nodup_ids': all(len({c for c, _ in rnd}) == len(rnd) for rnd in case['rounds']), 'clients_round0': len(case['rounds'][0]),
           'client_opt': case['copt']['kind'] + ('+mom' if case['copt'].get('mom') else '') + ('+nest' if case['copt'].get('nest') else ''),
           'server_opt': case['sopt']['kind'] + ('+mom' if case['sopt'].get('mom') else '') + ('+nest' if case['sopt'].get('nest') else ''),
           'batching': f'bs={case["hp"]["bs"]},ep={case["hp"]["epochs"]},st={case["hp"]["steps"]},drop={case["hp"]["drop"]}',
